@@ -151,8 +151,8 @@ def run_pair(c, rec):
 
 # ----------------------------------------------------------------------------- rejection
 
-BAD = ["cov_inv_sq", "cov_identity", "prec_double", "prec_sqrt", "prec_sq", "two_fields", "gamma_dim2", "prior_invgamma", "prior_uniform",
-       "lik_laplace", "lik_normal"]
+BAD = ["cov_inv_sq", "cov_identity", "prec_double", "prec_sqrt", "prec_sq", "two_fields", "gamma_dim2", "gamma_scalar_geom2", "prior_invgamma",
+       "prior_uniform", "lik_laplace", "lik_normal", "prec_clipped"]
 
 
 @st.composite
@@ -171,6 +171,8 @@ def build_bad(c):
     s = D.Gamma(c["shape"], c["rate"], name="s")
     if bad == "gamma_dim2":
         s = D.Gamma(np.array([c["shape"], c["shape"]]), np.array([c["rate"], c["rate"]]), name="s")
+    elif bad == "gamma_scalar_geom2":
+        s = D.Gamma(c["shape"], c["rate"], geometry=2, name="s")     # scalar shape/rate broadcast over a 2-dimensional geometry
     elif bad == "prior_invgamma":
         s = D.InverseGamma(c["shape"], 0.0, c["rate"], name="s")
     elif bad == "prior_uniform":
@@ -187,8 +189,11 @@ def build_bad(c):
         y = D.Gaussian(mu, prec=lambda s: s ** 2, geometry=m, name="y")
     elif bad == "two_fields":
         y = D.Gaussian(lambda s: mu * s, cov=lambda s: 1.0 / s, geometry=m, name="y")
-    elif bad == "gamma_dim2":
+    elif bad in ("gamma_dim2", "gamma_scalar_geom2"):
         y = D.Gaussian(mu, cov=lambda s: 1.0 / s[0], geometry=m, name="y")
+    elif bad == "prec_clipped":
+        # not the identity, although it agrees with it at many points
+        y = D.Gaussian(mu, prec=lambda s: np.maximum(s, 1.0), geometry=m, name="y")
     elif bad == "lik_laplace":
         y = D.Laplace(mu, lambda s: 1.0 / s, geometry=m, name="y")
     elif bad == "lik_normal":
@@ -238,6 +243,8 @@ def run_reject(c, rec):
         rec.count("rejected")
         return
     sh, sc, val = out
+    if c["bad"] in ("gamma_dim2", "gamma_scalar_geom2"):
+        raise Violation(f"Conjugate sampler ({c['interface']}) accepted a non-scalar Gamma hyper-parameter ({c['bad']}) and drew a single scalar for it")
     # accepted: it is only a violation if what it draws from is not the true conditional
     refused2, res = refuses(lambda: proportional_to_own_density(target, sh, sc, f"Conjugate[{c['interface']}] accepted unsupported structure '{c['bad']}'"))
     if refused2:
